@@ -704,7 +704,20 @@ func (fr *Frame) exec(in ssa.Instruction) {
 		fr.set(x, fr.convert(x))
 	case *ssa.ChangeType:
 		v := fr.get(x.X)
-		fr.set(x, Val{Typ: x.Type(), L: v.L, Loc: v.Loc, Clo: v.Clo})
+		nv := Val{Typ: x.Type(), L: v.L, Loc: v.Loc, Clo: v.Clo}
+		// memory is typed by the pointee type of the ORIGINAL pointer: a pointer converted to a
+		// pointer of another named type with the same scalar underlying type (e.g. (*tiebreaker)(c))
+		// keeps reading and writing the original cell
+		if sp, ok := x.X.Type().Underlying().(*types.Pointer); ok && v.Loc == nil && len(v.L) > 0 {
+			if dp, ok := x.Type().Underlying().(*types.Pointer); ok && vc.typeName(sp.Elem()) != vc.typeName(dp.Elem()) {
+				if _, basic := sp.Elem().Underlying().(*types.Basic); basic && !vc.flatStruct(sp.Elem()) {
+					nv.Loc = &Loc{Fam: "E_" + vc.typeName(sp.Elem()), Idx: []string{v.L[0], "0"}, Typ: sp.Elem()}
+				} else {
+					vc.errorf("%s: pointer conversion between distinct non-scalar types is outside the typed memory model", fr.pos(x.Pos()))
+				}
+			}
+		}
+		fr.set(x, nv)
 	case *ssa.ChangeInterface:
 		v := fr.get(x.X)
 		fr.set(x, Val{Typ: x.Type(), L: v.L, Clo: v.Clo})
